@@ -31,6 +31,10 @@ def main():
             print("   ERROR:", r.error)
         for v in r.violations:
             print("   VIOLATION", v["label"], v["witness"])
+    from pysym import engine as EE
+    if EE.FORKSITES:
+        for k, v in sorted(EE.FORKSITES.items(), key=lambda kv: -kv[1])[:15]:
+            print("  forks %6d  %s" % (v, k))
     print("paths", n, stats, "stack left", len(stack), "wall %.1fs" % (time.time() - t00))
 
 
